@@ -38,7 +38,8 @@ template<typename T, typename Maker> struct QuantFam {
       // and the image read below are those of the settled state
       s += " q50=" + IK::show(o.get_quantile(0.5));
       s += " min=" + IK::show(o.get_min_item()) + " max=" + IK::show(o.get_max_item()) + " items=";
-      for (auto it = o.begin(); it != o.end(); ++it) { auto p = *it; s += IK::show(p.first); s += ':'; s += std::to_string(p.second); s += ','; }
+      const auto e = o.end();
+      for (auto it = o.begin(); it != e; ++it) { auto p = *it; s += IK::show(p.first); s += ':'; s += std::to_string(p.second); s += ','; }
     }
     auto bytes = o.serialize(0, IK::serde(nullptr));
     s += " bytes=" + bytes_hex(bytes);
